@@ -1,6 +1,6 @@
 """C08 — Objects, prototypes, functions and this (structural clauses)."""
 
-from ..rules import emitrules, objmodel, textparse
+from ..rules import emitrules, objmodel, optargs, textparse
 
 
 def run(ctx, rep):
@@ -17,3 +17,4 @@ def run(ctx, rep):
         "agreement with a reference object model over histories of operations (runtime differential)",
         "lexical `this` of arrow functions (no structural necessary condition independent of the implementation strategy)",
     ]
+    optargs.rule_missing_is_undefined(ctx, rep, "C08-R12", lambda f: any(p in f.qual for p in ("_create_object_constructor", "_make_object_method", "_make_function_method", "_create_function_constructor")), "Object, Object.prototype and Function.prototype", floor=3)
